@@ -69,6 +69,19 @@ def check(run):
                               ([], [(None, None), maestro])):
             for uid in (None, "00000000000008b3c880", "04a1b2c3d4e5f6"):
                 scenario(pre + [S.status_info({0x27: 0, 0x06: {"uuid": uid, "subs": subs, "on_card": on_card}})], "Ok:Bank")
+    # a terminal answers only when ITS time is up (read_card_timeout seconds) or a card shows up at the last moment: the final reply
+    # arrives late but inside the client's patience of read_card_timeout + 2 s — for the extremes of the configuration too
+    for rct in (0, 1, 15, 59, 60, 61, 100, 253, 254, 255):
+        for late in (rct * 1000, (rct + 2) * 1000 - 1):
+            for reply, exp in ((S.abort(0x6c), "Err:NoCard"),
+                               (S.status_info({0x27: 0, 0x06: {"uuid": "081ca72f"}}), "Ok:Member:081CA72F"),
+                               (S.status_info({0x27: 0, 0x06: {"uuid": "04a1b2c3", "subs": [(b"\x00\x05", b"\xa0\x00\x00\x00\x04\x10\x10")]}}), "Ok:Bank")):
+                sc = cc.Scenario(S, {"rct": rct}).start()
+                sc.ops.append("read_card")
+                sc.expect_write(S.read_card_req(rct)); sc.feed(cc.ACK); sc.feed(reply, delay=late); sc.expect_write(cc.ACK)
+                sc.exp_results.append(exp)
+                sc.finding_class = None
+                scs.append(sc)
     # all abort codes: time-out = no card, any other abort an error
     for c in range(256):
         if c == 0x6c:
